@@ -9,6 +9,8 @@ Executed by the S-kernel from source:
   expanded   dom AsExpandedName for XmlElement and XmlAttr over an in-scope set of <= 2 bindings with symbolic prefixes / URIs:
              a prefixed name takes the URI bound to its prefix; an unprefixed ELEMENT takes the default namespace; an unprefixed
              ATTRIBUTE is in no namespace, whatever the default namespace is.
+  bindings   model::Context::add_ns / remove_ns / get_ns_uri over histories of <= 3 calls with symbolic prefixes and URIs: the
+             binding of a prefix is the last one added and not removed (re-binding replaces).
   name-test  eval::equal_qname with model::Context::expanded_name over the caller's bindings (<= 2, symbolic): a node is kept iff
              the local parts are equal and the namespace URIs are equal (prefixes are irrelevant), an unbound prefix in the
              expression is an error.
@@ -388,8 +390,79 @@ def work_scope(job):
     return out
 
 
+def work_bindings(job):
+    """model::Context::add_ns / remove_ns / get_ns_uri: a history of <= 3 calls with symbolic prefixes and URIs, then a lookup;
+    the binding of a prefix is the one of the LAST add_ns for it that no remove_ns followed"""
+    ops, timeout_s = job           # ops: tuple of 'add' / 'remove'
+    out = {"job": ("bindings", ops), "status": "holds", "paths": 0, "queries": 0, "error": None, "fns": {}}
+    t0 = time.time()
+    try:
+        I = K.new_interp("debug")
+        I.files_in_scope = (K.XFUNC, K.XMODEL, K.XEVAL)
+        cons = []
+        ps, us = [], []
+        for i in range(len(ops)):
+            p, c = K.sym_str("bp%d_" % i, 1)
+            u, c2 = K.sym_str("bu%d_" % i, 1)
+            cons += [c, c2]
+            ps.append(p)
+            us.append(u)
+        q, c = K.sym_str("bq", 1)
+        cons.append(c)
+        I.assume(sym.to_z3(And(*cons)))
+
+        def thunk(I):
+            ctx = K.mk_obj("Context", K.XMODEL, size=SVec(), position=SVec(), namespaces=SVec())
+            for i, op in enumerate(ops):
+                p = Some(SStr(K.sym_str("bp%d_" % i, 1)[0]))
+                if op == "add":
+                    I.try_repo_method(ctx, "add_ns", [p, SStr(K.sym_str("bu%d_" % i, 1)[0])])
+                else:
+                    I.try_repo_method(ctx, "remove_ns", [p])
+            return I.try_repo_method(ctx, "get_ns_uri", [Some(SStr(K.sym_str("bq", 1)[0]))])
+        paths = I.explore(thunk)
+        out["paths"] = len(paths)
+
+        def post(p_):
+            if p_["kind"] == "panic":
+                return False
+            r = p_["value"]
+            cases = []
+            later = True          # no later operation touches the queried prefix
+            for i in range(len(ops) - 1, -1, -1):
+                hit = s_eq(ps[i], q)
+                if ops[i] == "add":
+                    ok = isinstance(r, Enum) and r.variant == "Some" and s_eq(r.fields[0], us[i])
+                else:
+                    ok = isinstance(r, Enum) and r.variant == "None"
+                cases.append(And(later, hit, ok))
+                later = And(later, Not(hit))
+            cases.append(And(later, isinstance(r, Enum) and r.variant == "None"))
+            return Or(*cases)
+        verdict, info, nq = K.decide(I, paths, post, timeout_s)
+        out["queries"] = nq + I.feas_queries
+        out["fns"] = K.fn_table(I)
+        if verdict == "sat":
+            mdl, p_ = info
+            out["status"] = "sat"
+            out["witness"] = {"what": "bindings", "ops": [(op, K.model_str(mdl, ps[i]), K.model_str(mdl, us[i])) for i, op in enumerate(ops)],
+                              "query": K.model_str(mdl, q), "result": str(p_.get("value"))[:60], "panic": p_.get("msg")}
+        elif verdict == "unknown":
+            out["status"] = "unknown"
+            out["error"] = str(info)
+    except (kernel.Unsupported, nomsem.Unsupported) as e:
+        out["status"] = "unsupported"
+        out["error"] = str(e)
+    except Exception:
+        import traceback
+        out["status"] = "unsupported"
+        out["error"] = "exception: " + traceback.format_exc()[-700:]
+    out["wall"] = time.time() - t0
+    return out
+
+
 def work(job):
-    return {"expanded": work_expanded, "name-test": work_nametest, "scope": work_scope}[job[0]](job[1:])
+    return {"expanded": work_expanded, "name-test": work_nametest, "scope": work_scope, "bindings": work_bindings}[job[0]](job[1:])
 
 
 # ---- replay --------------------------------------------------------------------------------------------------------
@@ -402,6 +475,7 @@ PROBES = {
               ("<r xmlns:p='u'><c><p:d/></c></r>", "namespace-uri(/*/*/*)", "u"), ("<r xmlns:p='u'><c><p:d/></c></r>", "count(/*/*/*/namespace::*)", "2"),
               ("<r xmlns='u'><c xmlns=''><d/></c></r>", "count(/*/*/*/namespace::*)", "1"), ("<r xmlns='u'><c/></r>", "count(/*/*/namespace::*)", "2")],
     "name-test": [("<r><a/></r>", "count(/r/a)", "1"), ("<r xmlns:p='u'><p:a/></r>", "count(/r/a)", "0")],
+    "bindings": [],
 }
 
 
@@ -435,6 +509,8 @@ def render_scope(levels):
 def judge(case, out):
     if "panic" in out or "died" in out:
         return True
+    if case.get("op") == "rebind":
+        return out.get("rebound") != out.get("fresh")
     if case.get("op") == "in_scope":
         return not (out.get("ok") and out.get("in_scope") == case["expected_in_scope"])
     return not (out.get("ok") and out.get("value") == case["expected_value"])
@@ -462,6 +538,9 @@ def main():
         for nu in (False, True):
             for nb in range(0, 3):
                 jobs.append(("name-test", tp, nu, (1,) * nb, t))
+    for n in range(1, 4):
+        for ops in itertools.product(("add", "remove"), repeat=n):
+            jobs.append(("bindings", ops, t))
     decl_shapes = [(None, 0), (None, 1), (1, 0), (1, 1)]
     per_level = [()] + [(d,) for d in decl_shapes] + ([(a, b) for a in decl_shapes for b in decl_shapes if a[0] != b[0] or a[0] == 1] if thorough else [((None, 1), (1, 1)), ((1, 1), (1, 1))])
     depth = 3 if thorough else 2
@@ -501,7 +580,17 @@ def main():
                 if "panic" in rr or "died" in rr or not (rr.get("ok") and rr.get("value") == want):
                     hit = (doc, expr, want, rr)
                     break
-            if not hit and what == "scope":
+            if not hit and what == "bindings":
+                rr = rp.run({"op": "rebind", "input": "<r xmlns:a='u1' xmlns:b='u2'><a:i/><b:i/><b:i/></r>"})
+                rep.replays += 1
+                if "panic" in rr or "died" in rr or rr.get("rebound") != rr.get("fresh"):
+                    status = "violated"
+                    rep.violation(oid, {"op": "rebind", "input": "<r xmlns:a='u1' xmlns:b='u2'><a:i/><b:i/><b:i/></r>", "property": "C10", "expected_value": "same"},
+                                  "a context in which p was bound to u1 and then to u2 answers count(//p:i) = %s, a fresh context with p bound to u2 answers %s" % (rr.get("rebound"), rr.get("fresh")))
+                else:
+                    status = "inconclusive"
+                    rep.inconclusive.append("%s: %d model witnesses (first %s) do not reproduce" % (oid, len(g["bad"]), g["bad"][0]["witness"]))
+            elif not hit and what == "scope":
                 # the model's own witnesses, rendered as documents (smallest first)
                 for res in sorted(g["bad"], key=lambda r: sum(len(x) for x in r["job"][1]))[:6]:
                     w = res["witness"]
